@@ -38,3 +38,63 @@ def _(rng):
     nxr = nx if frac == 0.0 else nx - 1
     return {"self": None, "img_left": _t.SimpleNamespace(sizes={"col": nx}), "img_right": _t.SimpleNamespace(sizes={"col": nxr}),
             "disp": disp}
+
+
+# ------------------------------------------------------------------------------------------- window sums of sad / ssd (C02)
+@contract("pandora.matching_cost.sad_ssd.SadSsd.pixel_wise_aggregation", props=["C02"])
+def _(self, cost_volume):
+    # "sum of absolute or squared differences ... between the window centred on the left pixel and the window ... in the right image":
+    # every output cell is the sum of the pixel-wise costs over ITS OWN window_size x window_size window of the (enlarged) volume
+    types(self={"@attrs": {"_window_size": "int"}}, cost_volume="f32[:,:,:]", result="f32[:,:,:]")
+    requires("window", self._window_size >= 1, cost_volume.shape[1] >= self._window_size, cost_volume.shape[2] >= self._window_size)
+    assigns()
+    raises_never()
+    option(no_fuzz=True)
+    ensures("shape", result.shape[0] == cost_volume.shape[0] and result.shape[1] == cost_volume.shape[1] - (self._window_size - 1)
+            and result.shape[2] == cost_volume.shape[2] - (self._window_size - 1))
+    ensures("window_sum", all(
+        eq(result[d, x, y], np.sum(cost_volume[d, x: x + self._window_size, y: y + self._window_size]))
+        for d in range(cost_volume.shape[0]) for x in range(cost_volume.shape[1] - (self._window_size - 1))
+        for y in range(cost_volume.shape[2] - (self._window_size - 1))))
+    # NaN exactly when a pixel-wise cost of the window is not computable (pixel-wise costs are finite or NaN)
+    ensures("nan_iff_window_has_nan", implies(
+        all(isnan(cost_volume[d, x, y]) or isfinite(cost_volume[d, x, y])
+            for d in range(cost_volume.shape[0]) for x in range(cost_volume.shape[1]) for y in range(cost_volume.shape[2])),
+        all(isnan(result[d, x, y]) == any(isnan(cost_volume[d, p, q]) for p in range(x, x + self._window_size)
+                                          for q in range(y, y + self._window_size))
+            for d in range(cost_volume.shape[0]) for x in range(cost_volume.shape[1] - (self._window_size - 1))
+            for y in range(cost_volume.shape[2] - (self._window_size - 1)))))
+
+
+@contract("pandora.matching_cost.sad_ssd.SadSsd.ad_cost", props=["C02"])
+def _(self, point_p, point_q, img_left, img_right):
+    # monoband images: the pixel-wise absolute difference between left column p0+i and right column q0+i, row by row
+    types(self={"@attrs": {"_band": "none"}}, point_p=["int", "int"], point_q=["int", "int"],
+          img_left={"vars": {"im": "f32[:,:]"}}, img_right={"vars": {"im": "f32[:,:]"}}, result="f32[:,:]")
+    requires("ranges", 0 <= point_p[0], point_p[0] <= point_p[1], point_p[1] <= img_left["im"].data.shape[1],
+             0 <= point_q[0], point_q[0] <= point_q[1], point_q[1] <= img_right["im"].data.shape[1],
+             point_p[1] - point_p[0] == point_q[1] - point_q[0], img_left["im"].data.shape[0] == img_right["im"].data.shape[0])
+    assigns()
+    raises_never()
+    option(lazy_slices=True, no_fuzz=True)
+    ensures("shape", result.shape[0] == img_left["im"].data.shape[0] and result.shape[1] == point_p[1] - point_p[0])
+    ensures("absolute_difference", all(
+        eq(result[y, i], abs(img_left["im"].data[y, point_p[0] + i] - img_right["im"].data[y, point_q[0] + i]))
+        for y in range(img_left["im"].data.shape[0]) for i in range(point_p[1] - point_p[0])))
+
+
+@contract("pandora.matching_cost.sad_ssd.SadSsd.sd_cost", props=["C02"])
+def _(self, point_p, point_q, img_left, img_right):
+    types(self={"@attrs": {"_band": "none"}}, point_p=["int", "int"], point_q=["int", "int"],
+          img_left={"vars": {"im": "f32[:,:]"}}, img_right={"vars": {"im": "f32[:,:]"}}, result="f32[:,:]")
+    requires("ranges", 0 <= point_p[0], point_p[0] <= point_p[1], point_p[1] <= img_left["im"].data.shape[1],
+             0 <= point_q[0], point_q[0] <= point_q[1], point_q[1] <= img_right["im"].data.shape[1],
+             point_p[1] - point_p[0] == point_q[1] - point_q[0], img_left["im"].data.shape[0] == img_right["im"].data.shape[0])
+    assigns()
+    raises_never()
+    option(lazy_slices=True, no_fuzz=True)
+    ensures("shape", result.shape[0] == img_left["im"].data.shape[0] and result.shape[1] == point_p[1] - point_p[0])
+    ensures("squared_difference", all(
+        eq(result[y, i], (img_left["im"].data[y, point_p[0] + i] - img_right["im"].data[y, point_q[0] + i])
+           * (img_left["im"].data[y, point_p[0] + i] - img_right["im"].data[y, point_q[0] + i]))
+        for y in range(img_left["im"].data.shape[0]) for i in range(point_p[1] - point_p[0])))
